@@ -390,7 +390,7 @@ def run_cases(exe, lines, timeout=120, env=None, per_case_timeout=20):
             results.append("TIMEOUT" if rc2 == "TIMEOUT" else "CRASH(%s)" % rc2)
         else:
             results.append("CRASH(%s)" % rc)
-            stderr_tail[pos] = err[-3000:]
+            stderr_tail[pos] = err if len(err) < 4000 else (err[:3000] + "\n...\n" + err[-800:])
         pos += 1
     return results, stderr_tail
 
